@@ -218,6 +218,9 @@ CHECKS["C02"] = {
          "gen_stubs": [{"pkgpath": "github.com/ProtonMail/gluon/connector", "iface": "Connector", "type": "verifConnBase"}],
          "params": {"quick": grid(k=[1, 2, 3]), "thorough": grid(k=[3, 4])},
          "cover": ["mailboxes-updated", "flags-updated", "deleted"]},
+        {"name": "queue", "pkg": "async", "pkgname": "async", "entry": "VerifC02Queue", "files": ["zz_verif_c02.go"], "goroutines": True,
+         "params": {"quick": grid(k=[2], burst=[3]), "thorough": grid(k=[3], burst=[3]) + grid(k=[2], burst=[5])},
+         "cover": ["queue-drained"]},
         {"name": "session", "pkg": "internal/session", "pkgname": "session", "entry": "VerifC01Session", "files": ["zz_verif_c18.go", "zz_verif_c18b.go", "zz_verif_c01.go"],
          "with": ["state_export", "backend_export", "verifdb"],
          "extra_overlay": {"internal/response/zz_verif_decode.go": "internal/response/zz_verif_decode.go"},
@@ -225,7 +228,7 @@ CHECKS["C02"] = {
          "cover": ["own-store", "update-delivered"]},
     ],
     "stubs": ["internal/verifdb relational model", "state.Connector stub (no remote updates)", "state.UserInterface stub: FIFO, loss-free per-state update queue (async.QueuedChannel is goroutine based: outside)"],
-    "outside": ["the goroutine-backed queue between writer and session (modelled as the FIFO, loss-free pipe it is specified to be; the native replay runs the real one)", "histories longer than k events", "more than two sessions"],
+    "outside": ["in the state / backend / session harnesses the goroutine-backed queue between writer and session is modelled as the FIFO, loss-free pipe it is specified to be (the native replay runs the real one); that contract itself is decided by the queue harness on async.QueuedChannel's real code under the cooperative goroutine model (other goroutines run to quiescence at every hand-over point - pre-emption inside a critical section is outside)", "histories longer than k events", "more than two sessions"],
     "assumptions": ["updates are delivered to a state in the order they were queued, none is lost"],
 }
 
